@@ -217,8 +217,8 @@ def _native_post(cls, f, nf, hs):
 
 # ---------------------------------------------------------------- E1: whole constructors
 
-DEFAULTS = [None, "x", ["x"], "", 0, []]          # none / scalar / list / falsy scalars / empty list
-DEFAULT_NAMES = ["none", "scalar", "list", "empty-string", "zero", "empty-list"]
+DEFAULTS = [None, "x", ["x"], "", 0, [], ("x",)]          # none / scalar / list / falsy scalars / empty list / a tuple (a sequence, but not a list)
+DEFAULT_NAMES = ["none", "scalar", "list", "empty-string", "zero", "empty-list", "tuple"]
 
 
 def _is_list(dk):
@@ -495,24 +495,24 @@ def option_set_default(low: int, tsel: int, d1: int, d2: int) -> bool:
     """
     pre: 0 <= low < 16
     pre: 0 <= tsel < 5
-    pre: d1 == PART["d1"] and 0 <= d2 < 7
+    pre: d1 == PART["d1"] and 0 <= d2 < 8
     post: _
     """
     flags = 4 * _split_bits(low, 4) + [0, 128, 256, 512, 1024][_split_small(tsel, 5)]
-    d1, d2 = _split_small(d1, 6), _split_small(d2, 7)
+    d1, d2 = _split_small(d1, 7), _split_small(d2, 8)
     try:
         o = Option("opt", "o", flags, None, DEFAULTS[d1])
     except ValueError:
         return True
     try:
-        if d2 == 6:
+        if d2 == 7:
             o.set_default()                      # no argument: back to "no default"
         else:
             o.set_default(DEFAULTS[d2])
         changed = True
     except ValueError:
         changed = False
-    want = DEFAULTS[0] if d2 == 6 else DEFAULTS[d2]
+    want = DEFAULTS[0] if d2 == 7 else DEFAULTS[d2]
     try:
         ref = Option("opt", "o", flags, None, want)
         ref_ok = True
@@ -534,24 +534,24 @@ def option_set_default(low: int, tsel: int, d1: int, d2: int) -> bool:
 def argument_set_default(flags: int, tsel: int, d1: int, d2: int) -> bool:
     """
     pre: 0 <= flags < 8 and 0 <= tsel < 3
-    pre: 0 <= d1 < 6 and 0 <= d2 < 7
+    pre: 0 <= d1 < 7 and 0 <= d2 < 8
     post: _
     """
     flags = _split_bits(flags, 3) + [0, 32, 128][_split_small(tsel, 3)]
-    d1, d2 = _split_small(d1, 6), _split_small(d2, 7)
+    d1, d2 = _split_small(d1, 7), _split_small(d2, 8)
     try:
         a = Argument("arg", flags, None, DEFAULTS[d1])
     except ValueError:
         return True
     try:
-        if d2 == 6:
+        if d2 == 7:
             a.set_default()
         else:
             a.set_default(DEFAULTS[d2])
         changed = True
     except ValueError:
         changed = False
-    want = DEFAULTS[0] if d2 == 6 else DEFAULTS[d2]
+    want = DEFAULTS[0] if d2 == 7 else DEFAULTS[d2]
     try:
         ref = Argument("arg", flags, None, want)
         ref_ok = True
